@@ -131,4 +131,11 @@ PROPS = {
             {"name": "FuzzC16Extract", "kind": "fuzz", "fuzztime": 90, "tiers": ("thorough",)},
         ],
     },
+    "C20": {
+        "level": "exploration",
+        "tests": [
+            {"name": "TestC20", "quick": 6000, "thorough": 200000},
+        ] + [{"name": n, "kind": "fuzz", "fuzztime": 60, "tiers": ("thorough",)} for n in (
+            "FuzzC20Strvals", "FuzzC20Values", "FuzzC20Index", "FuzzC20Manifests", "FuzzC20Ignore", "FuzzC20Plugin", "FuzzC20Records", "FuzzC20Schema", "FuzzC20ChartYaml")],
+    },
 }
